@@ -253,6 +253,17 @@ func init() {
 					}
 				}
 			}
+			// S4: two runs of the command-line tool's packaging function into one directory, from one configuration file
+			for _, ci := range []int{0, 1, 5} {
+				for i, a := range Formats {
+					for _, b := range Formats[i+1:] {
+						// (the same format twice would be two runs told to write the same file)
+						if !yield(C12Case{Config: ci, Mode: "S4", Formats: []string{a, b}}) {
+							return
+						}
+					}
+				}
+			}
 			if !yield(C12Case{Mode: "racepass"}) {
 				return
 			}
